@@ -69,7 +69,7 @@ fn resolve_input(spec: &SchemaSpec, dim: usize, i: &InSpec) -> Vec<f64> {
 
 fn strategy(tier: Tier) -> BoxedStrategy<Case> {
     let maxdim = tier.pick(6usize, 8usize);
-    let schema = (schema_spec(), sized(maxdim, maxdim + 4))
+    let schema = (schema_spec_x(true), sized(maxdim, maxdim + 4))
         .prop_flat_map(|(spec, d)| {
             let dim = d.max(spec.min_dim());
             (Just(spec), Just(dim), proptest::collection::vec(in_spec(dim), 6..14))
